@@ -124,6 +124,15 @@ Definition search_candidate (c : cfg) (s : st) : option task * st :=
 
 Definition all_bad (s : st) : bool := (ntotal s =? nbad s)%nat.
 
+(** popFreePeer + popNextTask + runTask *)
+Definition launch (s1 : st) (t : task) (p : peer) (frest : list peer) : st :=
+  let s2 := set_peers s1 frest (nbad s1) in
+  let s3 := match t_retry t with
+            | O => set_queues s2 (running s2) (tl (pending s2)) (retry s2)
+            | _ => set_queues s2 (running s2) (pending s2) (tl (retry s2))
+            end in
+  set_queues s3 (running s3 ++ [mkTask (t_start t) (t_hashes t) (t_retry t) (Some p)]) (pending s3) (retry s3).
+
 (** the loop of schedule(): (state, requests sent, error) *)
 Fixpoint schedule (fuel : nat) (c : cfg) (s : st) : st * list out * option N :=
   match fuel with
@@ -139,14 +148,7 @@ Fixpoint schedule (fuel : nat) (c : cfg) (s : st) : st * list out * option N :=
       | Some t =>
         if (max_pending c <=? length (connq s1))%nat && (t_retry t =? 0)%nat then (s1, [], None) else
         if all_bad s1 then (s1, [], Some E_ALLBAD) else
-        let s2 := set_peers s1 frest (nbad s1) in
-        let s3 := match t_retry t with
-                  | O => set_queues s2 (running s2) (tl (pending s2)) (retry s2)
-                  | _ => set_queues s2 (running s2) (pending s2) (tl (retry s2))
-                  end in
-        let t' := mkTask (t_start t) (t_hashes t) (t_retry t) (Some p) in
-        let s4 := set_queues s3 (running s3 ++ [t']) (pending s3) (retry s3) in
-        let '(s5, outs, e) := schedule k c s4 in
+        let '(s5, outs, e) := schedule k c (launch s1 t p frest) in
         (s5, OReq (p_no p) (t_hashes t) :: outs, e)
       end
     end
